@@ -182,14 +182,44 @@ def is_json(text):
 
 
 def to_python(v):
-    """value tree -> python value; integers via int() (caller guarantees size), floats via float()"""
-    if isinstance(v, Num):
-        return int(v.lit) if v.is_int else float(v.lit)
-    if isinstance(v, list):
-        return [to_python(x) for x in v]
-    if isinstance(v, dict):
-        return {k: to_python(x) for k, x in v.items()}
-    return v
+    """value tree -> python value; integers via int() (caller guarantees size), floats via float(); iterative (any depth)"""
+    def leaf(x):
+        if isinstance(x, Num):
+            return int(x.lit) if x.is_int else float(x.lit)
+        return x
+    if not isinstance(v, (list, dict)):
+        return leaf(v)
+    root = [] if isinstance(v, list) else {}
+    stack = [(v, root)]
+    while stack:
+        src, dst = stack.pop()
+        items = enumerate(src) if isinstance(src, list) else src.items()
+        for k, x in items:
+            if isinstance(x, (list, dict)):
+                y = [] if isinstance(x, list) else {}
+                stack.append((x, y))
+            else:
+                y = leaf(x)
+            if isinstance(dst, list):
+                dst.append(y)
+            else:
+                dst[k] = y
+    return root
+
+
+def depth(v):
+    """nesting depth of the value tree (scalars 0)"""
+    best = 0
+    stack = [(v, 0)]
+    while stack:
+        x, d = stack.pop()
+        if isinstance(x, list):
+            best = max(best, d + 1)
+            stack.extend((y, d + 1) for y in x)
+        elif isinstance(x, dict):
+            best = max(best, d + 1)
+            stack.extend((y, d + 1) for y in x.values())
+    return best
 
 
 def max_int_digits(v):
